@@ -196,6 +196,28 @@ func c01(c *Ctx) {
 			})
 		}
 	}
+	// (a2) request messages shared by several RPCs: bodiless verbs first / body verb first, two services
+	{
+		pkg := "c01.shared"
+		f := corpus.SharedRequestFile(pkg, "c01shared")
+		addPkg(f, func(reg *protoregistry.Files, pt string) []*rpcTarget {
+			var ts []*rpcTarget
+			for _, sv := range f.Services {
+				for _, m := range sv.Methods {
+					pf := map[string]bool{}
+					for _, seg := range strings.Split(m.HTTP.Path, "/") {
+						if strings.HasPrefix(seg, "{") && strings.HasSuffix(seg, "}") {
+							pf[seg[1:len(seg)-1]] = true
+						}
+					}
+					verb := map[int32]string{1: "GET", 2: "POST", 3: "PUT", 4: "DELETE", 5: "PATCH"}[m.HTTP.Verb]
+					ts = append(ts, &rpcTarget{CaseID: fmt.Sprintf("deliver/shared-request/%s/%s/%s", strings.TrimPrefix(m.In, "."+pkg+"."), verb, sv.Name+"."+m.Name), Svc: pkg + "." + sv.Name, Method: m.Name,
+						In: strings.TrimPrefix(m.In, "."), Out: strings.TrimPrefix(m.Out, "."), Reg: reg, Proto: pt, PathFields: pf})
+				}
+			}
+			return ts
+		})
+	}
 	// (b) placement x kind
 	for _, g := range corpus.PlacementGroups() {
 		pkg := "c01.p" + g.Label
